@@ -386,6 +386,9 @@ def llI {α : Type} (l : LL α) : Iterable α where
   get := some (fun k => match l.nodeAt k with
     | .node a => (l.mem a).map (·.val)
     | _ => none)
+  getCur := fun s k => match l.nodeAt k with
+    | .node a => some a
+    | _ => s
 
 /-! ## Array: backing store and nitems -/
 
@@ -551,6 +554,9 @@ def arI {α : Type} (a : AR α) : Iterable α where
     else match a.store[j.toNat]? with
       | some (some v) => some v
       | _ => none)
+  getCur := fun s k => match normIdx a.nitems k with
+    | some i => some i
+    | none => s
 
 /-! ## Table: slot array and the `nitems` field -/
 
